@@ -11,6 +11,7 @@ from ..report import Check
 from ..tables import base_name
 from .. import resolverules as RR
 
+RETRY_INLINED = True
 LEVEL = 'other'
 
 GUARDS = ('uriFixAmbiguity',)
